@@ -26,7 +26,7 @@ LEAN = {"module": "Pygom.Props.C11",
         "required": ["Pygom.C11.checkJump_reject_unchanged", "Pygom.C11.checkJump_accept_within",
                      "Pygom.C11.path_within_limits", "Pygom.C11.limits_default", "Pygom.C11.stateLims_aligned",
                      "Pygom.C11.legacy_limits_counterexample"]}
-BUDGET = {"quick": {"models": 120, "sessions": 100},
+BUDGET = {"quick": {"models": 120, "sessions": 140},
           "thorough": {"models": 1000, "sessions": 800, "max_steps": 2000, "steps": [40, 150, 600, 1500], "session_steps": [40, 150, 600]}}
 RULE = ("bounded-rate event models (shared generator, incl. range-style state names) with small integer populations (0-12), "
         "lower / upper / two-sided / absent / default limits per declared state, magnitudes 1-3, x {exact, adaptive tau with "
@@ -34,7 +34,7 @@ RULE = ("bounded-rate event models (shared generator, incl. range-style state na
         "one-element list / tuple) or list / tuple / array grid of float or int dtype (also starting after t0, extending past extinction); "
         "the initial state handed over as int / int32 / float64 ndarray, list or tuple of ints or floats; plus SESSIONS on one instance "
         "(3-5 calls, exact and tau-leap, raw and gridded, pre_tau / epsilon left over, initial values re-assigned in another form or "
-        "with other values inside the limits, a sibling instance with other limits simulated in between, first call repeated, last call "
+        "with other values inside the limits, parameters changed and restored, a deep copy of the configured instance taking over, a sibling instance (same or another definition and limits) simulated in between, first call repeated, last call "
         "repeated on a fresh instance, every returned array kept and compared again at the end, caller's arrays unchanged); "
         "a case is non-trivial when some path has >= 5 accepted steps; rejected tau-leaps, accepted retries and rejected "
         "first-reaction steps are counted in the tags")
